@@ -567,6 +567,9 @@ func (c *codegen) computeMutates() {
 							m = true
 						}
 					case *ast.Ident:
+						if f.Name == "copy" && len(x.Args) == 2 && rooted(x.Args[0]) {
+							m = true
+						}
 						if ri := c.reflOf(f.Name); ri != nil && ri.setter && len(x.Args) > 0 && rooted(x.Args[0]) {
 							m = true
 						}
@@ -592,9 +595,18 @@ func (c *codegen) ensure(k fnKey, at ast.Node) {
 		c.fail(at, "recursive call of %s", fnName(k))
 	}
 	c.busy[k] = true
-	saved := c.cur
-	out := c.function(k)
-	c.cur = saved
+	saved, savedPhase := c.cur, c.phase2
+	var out fnOut
+	if c.white2Set[k] {
+		if !c.phase2 {
+			c.fail(at, "internal error: function %s of the second part needed by the first part", fnName(k))
+		}
+		out = c.function2(k)
+	} else {
+		c.phase2 = false
+		out = c.function(k)
+	}
+	c.cur, c.phase2 = saved, savedPhase
 	c.busy[k] = false
 	c.done[k] = true
 	c.outs = append(c.outs, out)
@@ -617,6 +629,80 @@ var codeWhitelist = []fnKey{
 	{"OSAPConfig", "SetDefaults"}, {"OSAPConfig", "Verify"},
 	{"DecoderConfig", "SetDefaults"}, {"DecoderConfig", "Verify"},
 }
+
+// codeWhitelist2: the buffer state machines (second part of Code.lean).
+var codeWhitelist2 = []fnKey{
+	{"ParserBuffer", "Shrink"}, {"ParserBuffer", "ByteAt"}, {"ParserBuffer", "PeekAt"},
+	{"ParserBuffer", "ReadAt"}, {"ParserBuffer", "Reset"}, {"ParserBuffer", "grow"},
+	{"ParserBuffer", "Write"}, {"ParserBuffer", "Init"},
+	{"DecoderBuffer", "Init"}, {"DecoderBuffer", "Reset"}, {"DecoderBuffer", "ByteAtEnd"},
+	{"DecoderBuffer", "Read"}, {"DecoderBuffer", "shrink"}, {"DecoderBuffer", "WriteByte"},
+	{"DecoderBuffer", "Write"}, {"DecoderBuffer", "WriteMatch"}, {"DecoderBuffer", "WriteBlock"},
+}
+
+const leanPrelude2 = `/-! ### second prelude: panics, byte slices with capacity, fuel -/
+
+/-- outcome of a Go computation that may panic: ` + "`ok a`" + ` — it returns a; ` + "`panic`" + ` — the Go code
+    panics (index or slice bounds out of range, ` + "`make`" + ` with len > cap or a negative size);
+    ` + "`fuel`" + ` — a ` + "`for`" + ` loop was unrolled ` + "`fuel`" + ` times without leaving it (an artefact of the
+    translation of loops: it says nothing about the Go code; the theorems show it does not occur) -/
+inductive Res (α : Type) where
+  | ok (a : α)
+  | panic
+  | fuel
+deriving DecidableEq, Repr, Inhabited
+
+def Res.bind {α β : Type} : Res α → (α → Res β) → Res β
+  | .ok a, f => f a
+  | .panic, _ => .panic
+  | .fuel, _ => .fuel
+
+/-- a ` + "`[]byte`" + ` value: ` + "`arr`" + ` is the backing array from the first element of the slice to the
+    end of its capacity (so ` + "`cap = arr.length`" + `), ` + "`len`" + ` the length; the elements of the slice are
+    ` + "`arr.take len`" + `.  Slices are values: two slices never share memory. -/
+structure Slice where
+  arr : List UInt8
+  len : Nat
+deriving DecidableEq, Repr, Inhabited
+
+namespace Slice
+
+/-- the nil slice -/
+def nil : Slice := { arr := [], len := 0 }
+
+def cap (s : Slice) : Nat := s.arr.length
+
+/-- the elements -/
+def data (s : Slice) : List UInt8 := s.arr.take s.len
+
+/-- ` + "`s[i:j]`" + ` (` + "`s[i:]`" + ` is ` + "`s[i:len(s)]`" + `, ` + "`s[:j]`" + ` is ` + "`s[0:j]`" + `): panics unless 0 ≤ i ≤ j ≤ cap(s) -/
+def slice (s : Slice) (i j : Int) : Res Slice :=
+  if 0 ≤ i ∧ i ≤ j ∧ j ≤ Int.ofNat s.cap then
+    Res.ok { arr := s.arr.drop i.toNat, len := j.toNat - i.toNat }
+  else Res.panic
+
+/-- ` + "`s[i]`" + `: panics unless 0 ≤ i < len(s) -/
+def index (s : Slice) (i : Int) : Res UInt8 :=
+  if 0 ≤ i ∧ i < Int.ofNat s.len then Res.ok (s.arr.getD i.toNat 0) else Res.panic
+
+/-- ` + "`copy(dst, src)`" + `: the modified dst and the number of bytes copied (memmove semantics) -/
+def copy (dst src : Slice) : Slice × Int :=
+  let n := Nat.min dst.len src.len
+  ({ arr := src.arr.take n ++ dst.arr.drop n, len := dst.len }, Int.ofNat n)
+
+/-- ` + "`make([]byte, n, c)`" + `: panics unless 0 ≤ n ≤ c -/
+def make (n c : Int) : Res Slice :=
+  if 0 ≤ n ∧ n ≤ c then Res.ok { arr := List.replicate c.toNat 0, len := n.toNat } else Res.panic
+
+/-- ` + "`append(s, bs...)`" + `: in place if the capacity suffices, else into a new zeroed array whose
+    capacity ` + "`grow oldCap neededLen`" + ` is chosen by the run time -/
+def append (grow : Nat → Nat → Nat) (s : Slice) (bs : List UInt8) : Slice :=
+  let n := s.len + bs.length
+  if n ≤ s.cap then { arr := s.arr.take s.len ++ bs ++ s.arr.drop n, len := n }
+  else { arr := s.arr.take s.len ++ bs ++ List.replicate (grow s.cap n - n) 0, len := n }
+
+end Slice
+`
 
 const leanPrelude = `/-! ### fixed prelude: the meaning of the Go primitives the translation refers to -/
 
@@ -658,7 +744,8 @@ def bitsLen64 (x : UInt64) : Int := if x = 0 then 0 else Int.ofNat (Nat.log2 x.t
 func genCode(p *pkgInfo, repo, outFile string) {
 	c := &codegen{p: p, fns: p.funcs(), structs: p.structs(), constTypes: map[string]ast.Expr{},
 		whiteSet: map[fnKey]bool{}, mutates: map[fnKey]bool{}, refl: map[string]*reflInfo{},
-		structSeen: map[string]bool{}, done: map[fnKey]bool{}, busy: map[fnKey]bool{}}
+		structSeen: map[string]bool{}, done: map[fnKey]bool{}, busy: map[fnKey]bool{},
+		structPhase: map[string]int{}, sigs: map[fnKey]*fnSig{}, white2Set: map[fnKey]bool{}}
 	for _, f := range p.files {
 		for _, d := range f.Decls {
 			if gd, ok := d.(*ast.GenDecl); ok && gd.Tok == token.CONST {
@@ -675,18 +762,28 @@ func genCode(p *pkgInfo, repo, outFile string) {
 			}
 		}
 	}
-	c.white = codeWhitelist
+	c.white = append(append([]fnKey{}, codeWhitelist...), codeWhitelist2...)
 	for _, k := range c.white {
 		if c.fns[k] == nil {
 			fatal(fmt.Errorf("whitelisted function %s not found in %s", fnName(k), repo))
 		}
 		c.whiteSet[k] = true
 	}
+	for _, k := range codeWhitelist2 {
+		c.white2Set[k] = true
+	}
 	c.checkReflPrims()
 	c.computeMutates()
-	for _, k := range c.white {
+	c.collectErrVars()
+	for _, k := range codeWhitelist {
 		c.ensure(k, c.fns[k])
 	}
+	nstruct1, nout1 := len(c.structUse), len(c.outs)
+	c.phase2 = true
+	for _, k := range codeWhitelist2 {
+		c.ensure(k, c.fns[k])
+	}
+	c.phase2 = false
 
 	var sb strings.Builder
 	w := func(format string, a ...interface{}) { fmt.Fprintf(&sb, format+"\n", a...) }
@@ -701,14 +798,17 @@ func genCode(p *pkgInfo, repo, outFile string) {
 	sb.WriteString(leanPrelude)
 	w("")
 	w("/-! ### structures (one per Go struct the whitelisted functions touch) -/")
-	for _, s := range c.structUse {
+	emitStruct := func(s string) {
 		w("")
-		w("/-- `type %s struct` -/", s)
+		w("/-- `type %s struct` -/", goStruct(s))
 		w("structure %s where", s)
 		for _, f := range c.structFields(s, nil) {
 			w("  %s : %s", f.name, f.typ.lean())
 		}
 		w("deriving DecidableEq, Repr, Inhabited")
+	}
+	for _, s := range c.structUse[:nstruct1] {
+		emitStruct(s)
 	}
 	w("")
 	w("/-! ### reflective field-copy helpers, as read from their source (inlined at the call sites) -/")
@@ -738,7 +838,37 @@ func genCode(p *pkgInfo, repo, outFile string) {
 	}
 	w("")
 	w("/-! ### functions -/")
-	for _, o := range c.outs {
+	for _, o := range c.outs[:nout1] {
+		w("")
+		for _, l := range o.lines {
+			w("%s", l)
+		}
+	}
+	w("")
+	// ------------------------------------------------ second part
+	w("/-! ## second part: the buffer state machines (byte slices, panics, loops) -/")
+	w("")
+	sb.WriteString(leanPrelude2)
+	w("")
+	w("/-! ### package-level error variables: distinct constants (numbered from %d in alphabetical", errVarBase+1)
+	w("    order of all `var X = errors.New(…)` of the package; never assigned anywhere in the package) -/")
+	names := append([]string{}, c.errVarUse...)
+	sortStrings(names)
+	for _, n := range names {
+		ev := c.errVars[n]
+		w("")
+		w("/-- `var %s = errors.New(%s)` — %s -/", n, strconv.Quote(ev.msg), c.pos(ev.pos))
+		w("def %s : Err := Err.error %d", ev.lean, ev.num)
+	}
+	w("")
+	w("/-! ### structures of the second part (`[]byte` fields are `Slice`; an embedded struct is a field")
+	w("    named after its type) -/")
+	for _, s := range c.structUse[nstruct1:] {
+		emitStruct(s)
+	}
+	w("")
+	w("/-! ### functions of the second part -/")
+	for _, o := range c.outs[nout1:] {
 		w("")
 		for _, l := range o.lines {
 			w("%s", l)
